@@ -3,6 +3,7 @@ CONSTANTS
   MaxLen = 3
   SortedLen = 0
   NoForeignLen = 4
+  RepLen = 3
   OtherLen = 2
   WrapLen = 3
   ShareLen = 3
